@@ -95,7 +95,7 @@ func init() {
 			return Step{S: []int{s}, A: []uint64{uint64(r.Intn(numCursors)), uint64(kind), a, b}}, true
 		},
 		valid: func(w *World, st *Step) bool {
-			return slotsOK(w, st, 1, 4) && st.A[0] < numCursors && st.A[1] < 4 && st.A[2] <= st.A[3] && st.A[3] <= 1<<32 && st.A[3]-st.A[2] <= 1<<20
+			return slotsOK(w, st, 1, 4) && st.A[0] < numCursors && st.A[1] < 4 && st.A[2] <= st.A[3] && st.A[3] <= 1<<32 && st.A[3]-st.A[2] <= 1<<20 && (st.A[1] == 3 || !w.giant(st.S[0]))
 		},
 		exec: func(w *World, st *Step) {
 			o := w.B[st.S[0]]
@@ -245,7 +245,7 @@ func init() {
 			return Step{S: []int{s}, A: []uint64{uint64(which), stop, a, b}}, true
 		},
 		valid: func(w *World, st *Step) bool {
-			return slotsOK(w, st, 1, 4) && st.A[0] < 5 && (st.A[0] != 3 || (st.A[2] < st.A[3] && st.A[3] <= 1<<32 && st.A[3]-st.A[2] <= 1<<20))
+			return slotsOK(w, st, 1, 4) && st.A[0] < 5 && (st.A[0] != 3 || (st.A[2] < st.A[3] && st.A[3] <= 1<<32 && st.A[3]-st.A[2] <= 1<<20)) && (st.A[0] == 3 || st.A[0] == 4 || !w.giant(st.S[0]))
 		},
 		exec: execIterFn})
 }
